@@ -108,6 +108,9 @@ def atoms():
             'p.a not in ()', 'p.a in ()', 'p.b not in []', 'p.a in e', 'p.b not in e', "p.s not in ()",
             '(p.a, p.b) in ((q.a, q.b) for q in P if q.f)', '(p.a, p.b) not in ((q.a, q.b) for q in P if q.f)', '(p.a, p.s) not in ((q.b, q.u) for q in P)',
             '(p.g.n, p.a) in ((g.n, g.id) for g in G)', '(p.b, p.u) not in ((q.a, q.s) for q in P if q.b is None)',
+            # conditional expressions nested in the else / then branch (flattened into one CASE by the builder)
+            '(p.a if p.f else (p.b if p.h else 0)) == x', '(1 if p.a > x else (2 if p.a > 0 else 3)) == 2', "(p.s if p.f else (p.u if p.h else 'a')) == y",
+            '((p.a if p.h else p.b) if p.f else 0) > x', '(p.a if p.b is None else (p.b if p.b > p.a else (x if p.f else 0))) == x',
             # per-row string index
             'p.s[p.a] == y', "p.s[p.a - 1] == 'a'", 'p.s[p.b] != y', 'p.s[-p.a] == y', 'p.s[len(p.s) - 1] == y', 'p.u[p.a] == p.s[0]',
             ]
@@ -132,6 +135,9 @@ def g_atoms():
             "g.name in (p.s for p in g.ps)", "exists(p for p in g.ps if p.s.startswith(g.name))", 'g.ps.select(lambda p: p.a > x)',
             'g.ps.count() > x', 'g.ps.is_empty()', 'count(p for p in g.ps if p.f) == x', 'not exists(p for p in g.ps if not p.b)',
             'g.n is None and not g.ps', 'len(g.ps) == len(g.name)', 'g.size > x', 'g.size == len(g.tags)', 'g.has_big(x)', 'not g.has_big(x)', 'g.has_big(g.n)',
+            # JOIN() hint: the same value through a joined, grouped subselect
+            'JOIN(sum(g.ps.b)) == 0', 'JOIN(sum(g.ps.a)) < x', 'JOIN(count(g.ps)) > x', 'JOIN(max(g.ps.a)) == x', 'JOIN(len(g.tags)) > x', 'JOIN(min(g.ps.b)) is None',
+            'sum((1 if p.f else (2 if p.h else 0)) for p in g.ps) == x',
             # many-to-many
             'g.tags', 'not g.tags', 'len(g.tags) > x', 'count(g.tags) == x', 'x in g.tags.w', 'x not in g.tags.w', 'sum(g.tags.w) > x', 'max(g.tags.w) == x',
             'exists(t for t in g.tags if t.w > x)', 'not exists(t for t in g.tags if t.w == g.n)', 'g.tags.count() == len(g.ps)', 'g.tags.is_empty()',
@@ -187,6 +193,10 @@ def programs(tier, rng):
     for a in g_atoms():
         add('(g for g in G if %s)' % a, 'g-atom')
         add('(g for g in G if not (%s))' % a, 'g-not-atom')
+    # the JOIN() hint around a membership test is documented for positive conditions only (negated, the inner join it asks for
+    # changes the meaning: observed, `not JOIN(x in g.ps.a)` drops groups without items); only the positive form is enumerated
+    add('(g for g in G if JOIN(x in g.ps.a))', 'g-atom')
+    add('(g for g in G if JOIN(x in g.ps.a) and g.n > 0)', 'g-atom')
     for a in t_atoms():
         add('(t for t in T if %s)' % a, 't-atom')
         add('(t for t in T if not (%s))' % a, 't-not-atom')
